@@ -5,6 +5,11 @@ import json, subprocess, os
 ALL = ["C%02d" % i for i in range(1, 21)]
 # id -> (category, technique, level text, level note, design ref)
 CHECKS = {
+ "C01": ("exploration",
+  "small-scope exhaustive enumeration of programs (8 grammar profiles, iterative deepening by size) executed by the production pipeline and by an independent tree-walking reference evaluator",
+  "Every program of every profile up to the completed size level is executed on both sides under the needed dialect options, all options on, and periodically all 16 option combinations; the probe trace with argument values, final globals (with aliasing), outcome and position of the failing operation must agree. Exhaustive within the reported levels; larger programs are outside the bound.",
+  "Trusts the reference evaluator (internal/prog/ref.go, written from doc/spec.md) and shares primitive value operations with production (decided by C10-C13). Statically rejected programs are skipped (C09).",
+  "DESIGN.md §3 C01, Appendix A"),
  "C12": ("model_checking",
   "explicit-state BFS over the real Dict/Set to a fixpoint, keyed by the private table layout, against an association-list model",
   "Every history of any length over the stated alphabets (5 keys with forced hash collisions, pre-sized 4-bucket table) is covered because the breadth-first search over the real objects reaches a fixpoint on the table layout; 14 interchangeable colliding keys are covered to a stated depth (chain overflow, growth, slot reuse). After every transition all observable views are compared with an ordered association list.",
